@@ -545,7 +545,7 @@ def check(prop):
                     "file. distinct = distinct (parser, input); non-trivial = the parser did not simply return an error, or the input is "
                     "a mutation / alternate spelling of a valid text or a Layer B candidate. Exhaustive part: all strings up to length %d over the "
                     "18-character delimiter alphabet for each of the 5 parsers, up to length %d over 7-character per-parser alphabets, "
-                    "token sequences up to %d tokens; mutations (truncate/delete/duplicate/inject) of printed values, random strings "
+                    "token sequences up to %d tokens (one less for the literal and object parsers); mutations (truncate/delete/duplicate/inject) of printed values, random strings "
                     "and files are seeded." % ((3, 4, 4) if tier == "quick" else (4, 6, 5)),
             "exhaustive": False,
             "layer_b_model": "ValueText.tla (design level) evaluated exhaustively by TLC: ParsersTotal (partial slice expressions of "
